@@ -179,6 +179,17 @@ CHECKS = {
             'Trusted: json.dumps / ast.literal_eval / yaml.safe_dump and a 15-line TOML writer. Malformed spec text is only '
             'required not to execute. Bounds: target depth <= 3, spec depth <= 3; 64 subprocess cases in the quick tier.',
             'DESIGN.md section 4 / C19'),
+    'C20': ('exhaustive enumeration (itertools) of all interleavings of every pair and triple of a 14-entry evaluation pool under '
+            'a baton-passing thread scheduler that owns the schedule at user-callable granularity; free-running threads '
+            'under a minimal switch interval; Hypothesis-generated re-entrant nestings injected through the specs\' own probes',
+            'Schedule enumeration with an exact oracle: each evaluation\'s value, or error class and full trace text, must '
+            'equal its isolated outcome. The pool covers scope bindings, Vars/globals, modes, Group accumulators, '
+            'argument-mode containers, spec objects shared between evaluations, a shared scope= mapping and a shared '
+            'Glommer. Re-entrant nestings (depth <= 3, via glom / Spec.glom / Glommer.glom, inner failures caught by an outer '
+            'Coalesce or default=) use the very spec objects that are evaluated alone.',
+            'Trusted: vf/props/c20.py Sched (one runnable thread at a time). Pre-emption inside glom bytecode is only '
+            'sampled (free sub-check). Bounds: pairs with <= 4 yield points each, triples with 2 each (every 7th triple in the quick tier).',
+            'DESIGN.md section 4 / C20'),
 }
 
 NOT_YET = 'check not built yet in this session (design in DESIGN.md section 4); will be claimed once its check is quiet on the unchanged tree'
